@@ -255,4 +255,31 @@ PROPS = {
                       "before the first DML; `with` commits on normal exit and rolls back on exception). Read frames are not derived "
                       "mechanically in this revision.",
     },
+    "C10": {
+        "targets": ["spowtd.load:populate_grid_time", "spowtd.load:populate_rainfall_intensity",
+                    "spowtd.load:populate_evapotranspiration"],
+        "bounded": [{"run": "bounded.load_checks:run_C10",
+                     "what": "bounded stand-in for populate_water_level and the table level: real load_data on generated files (water level "
+                             "on the same / a different step than rainfall, aligned or not, single and double gaps, shuffled rows): grid, "
+                             "rainfall / ET copies, interpolated water levels, nothing strictly inside a gap, distinct labels per stretch"}],
+        "level_text": "Unbounded proof that populate_grid_time returns the staged rainfall instants within the water-level span plus one "
+                      "closing instant, uniformly spaced with a positive step, and reaches its refusal only for fewer than two instants or "
+                      "unequal steps. The interpolation / gap / label logic of populate_water_level (np.interp, flattening of gap pairs, "
+                      "mask assignments) is a bounded stand-in in this revision.",
+        "level_note": "SQL statements enter through assumed contracts (row order of the staging tables = rowid order is one of them).",
+    },
+    "C11": {
+        "targets": ["spowtd.load:generate_timestamped_rows", "spowtd.load:populate_grid_time",
+                    "spowtd.load:populate_evapotranspiration"],
+        "bounded": [{"run": "bounded.load_checks:run_C11",
+                     "what": "validation of the assumed pytz contract on sampled zones (fixed-offset, DST, half-hour, zones whose local mean "
+                             "time differs from today's offset) x seeded instants, and the three refusals through the real load_data "
+                             "(non-uniform rainfall, missing ET, already populated: refused and nothing merged)"}],
+        "level_text": "Unbounded proof, relative to the assumed contract of tz.localize (the instant whose rendering in the zone is the given "
+                      "wall time), that every yielded row starts with an integer epoch rendering back to the input text and passes the other "
+                      "fields through, and that a non-integer number of seconds is refused; that the non-uniform-step refusal and the "
+                      "missing-ET refusal are reached exactly in those situations and before any write of the function. The 'already "
+                      "populated' guard of load_data is a bounded stand-in.",
+        "level_note": "Correctness of pytz's tables for all IANA zones is the dependency's; validated on sampled zones only.",
+    },
 }
